@@ -1,4 +1,5 @@
 \* thorough: two-step writes under the per-message mutex; <= 4 frames
+\* measured: 297 157 distinct / 618 231 generated states, depth 41
 CONSTANTS
   FrameAlphabet <- FramesMutex
   MaxFrames = 4
